@@ -28,7 +28,7 @@ def digest (b : Bytes) : String := s!"{b.length}:{hex64 (fnv64 b)}"
 def framesText (fs : List Bytes) : String :=
   if fs.isEmpty then "-" else ",".intercalate (fs.map digest)
 
-inductive Kind | fw | app | none
+inductive Kind | fw | app | sock | none
   deriving DecidableEq
 
 structure DSt where
@@ -36,7 +36,8 @@ structure DSt where
   -- implementation model
   stream : Bytes := []          -- bytes defined and not yet handed to Read
   st : St := init               -- fw
-  appPending : Bytes := []      -- app
+  appPending : Bytes := []      -- app / sock: bytes received and not yet framed
+  sockAcc : List Bytes := []    -- sock: frames handed to the link service so far (reported at eof)
   dead : Option String := none
   -- specification state (depends only on ops and implementation outputs)
   expect : List (Nat × String) := []   -- blocks defined and not yet delivered: (length, digest)
@@ -85,6 +86,11 @@ def stepC11 (d : DSt) (op : String) (got : String) : StepResult DSt :=
     let kind := if k == "fw" then Kind.fw else if k == "app" then Kind.app else Kind.none
     if kind == .none then { st := {}, expected := some "bad-op" }
     else { st := { kind := kind }, expected := some "ok", cov := [s!"new-{k}"] }
+  | ["new", k, mtu] =>
+    -- the real TCP / Unix stream transport receive loop; the (send) MTU must not matter on receive
+    if (k == "tcp" || k == "unix") && mtu.toNat?.isSome then
+      { st := { kind := .sock }, expected := some "ok", cov := [s!"new-{k}"] }
+    else { st := {}, expected := some "bad-op" }
   | ["blk", t, n, sd] =>
     if d.kind == .none then { st := d, expected := some "skip" } else
     match t.toNat?, n.toNat?, sd.toNat? with
@@ -95,7 +101,9 @@ def stepC11 (d : DSt) (op : String) (got : String) : StepResult DSt :=
       { st := d', expected := some "ok", spec := crash,
         cov := [s!"blk-T{tlLen t}-L{tlLen n}"] ++ (if b.length = maxPkt then ["blk-maxsize"] else []) }
     | _, _, _ => { st := d, expected := some "bad-op" }
-  | ["rd", n] =>
+  | [rdop, n] =>
+    if rdop != "rd" && rdop != "rde" then { st := d, expected := some "bad-op" } else
+    let withErr := rdop == "rde"
     if d.kind == .none then { st := d, expected := some "skip" } else
     match n.toNat? with
     | none => { st := d, expected := some "bad-op" }
@@ -106,6 +114,8 @@ def stepC11 (d : DSt) (op : String) (got : String) : StepResult DSt :=
         if d.specDead then (d, []) else
         match field toks "k", field toks "f" with
         | some ks, some fs => specFrames d (ks.toNat?.getD 0) (parseFrames fs) false
+        | some ks, none =>   -- socket kinds: bytes written to the peer end, frames are reported at eof
+          ({ d with credit := d.credit + ks.toNat?.getD 0, undelivered := d.undelivered - ks.toNat?.getD 0 }, [])
         | _, _ => (d, [])
       let fails := fails ++ (if got.startsWith "stall" then [⟨"no-stall", "stall", s!"{op}: Read was offered an empty buffer (the receive loop spins, everything after this point is lost): {got}"⟩] else [])
       let fails := fails ++ (if got.startsWith "hang" then [⟨"no-spin", "hang", s!"{op}: the receive loop neither returned to Read nor terminated: {got}"⟩] else [])
@@ -117,9 +127,23 @@ def stepC11 (d : DSt) (op : String) (got : String) : StepResult DSt :=
       | some r => { st := dS, expected := some s!"dead {r}", spec := crash ++ fails }
       | none =>
         let n' := min n d.stream.length
-        if n' = 0 then { st := dS, expected := some "skip", spec := crash ++ fails } else
+        if withErr && d.kind != .fw then { st := dS, expected := some "skip", spec := crash ++ fails } else
+        if n' = 0 && !withErr then { st := dS, expected := some "skip", spec := crash ++ fails } else
         match d.kind with
+        | .sock =>
+          let chunk := d.stream.take n'
+          let r := parseLoop (d.appPending ++ chunk)
+          { st := { dS with stream := d.stream.drop n', appPending := r.2.1, sockAcc := d.sockAcc ++ r.1 },
+            expected := some s!"k={n'} w", spec := crash ++ fails,
+            cov := [if r.1.isEmpty then "sock-no-frame" else "sock-frames"] }
         | .fw =>
+          -- an ignorable error alone, or together with the bytes: after the repair of readTlvStream it
+          -- is transparent (the bytes are processed first, then the error is ignored)
+          if withErr && (n' = 0 || d.st.free = 0) then
+            let r := onRead d.st []
+            { st := { dS with st := r.1 }, expected := some s!"k=0 f={framesText r.2.1}", spec := crash ++ fails,
+              cov := ["rde-error-alone"] }
+          else
           if d.st.free = 0 then { st := dS, expected := some "stall k=0 f=-", spec := crash ++ fails, cov := ["rd-stall"] } else
           let k := min n' d.st.free
           let chunk := d.stream.take k
@@ -134,7 +158,8 @@ def stepC11 (d : DSt) (op : String) (got : String) : StepResult DSt :=
                          | none => ["rest-inside-L"]
                          | some _ => ["rest-inside-value"]) ++
                      (if r.1.tlvOff = 0 then ["compact"] else ["no-compact"]) ++
-                     (if k = 1 then ["rd-1byte"] else [])
+                     (if k = 1 then ["rd-1byte"] else []) ++
+                     (if withErr then [if r.2.1.isEmpty then "rde-bytes-with-error" else "rde-bytes-with-error-complete-block"] else [])
           let nt := !rest.isEmpty && (match decTL rest with | none => true | some (_, r1) => (decTL r1).isNone)
           let base := s!"k={k} f={framesText r.2.1}"
           let (exp, dead) : Option String × Option String := match r.2.2 with
@@ -175,12 +200,15 @@ def stepC11 (d : DSt) (op : String) (got : String) : StepResult DSt :=
         if f1.isEmpty && dS.undelivered = 0 && !dS.expect.isEmpty then
           [⟨"none-lost", "lost-at-eof", s!"{dS.expect.length} block(s) never delivered although every byte was read"⟩] else []
       let f3 : List SpecFail :=
-        if !(got.startsWith "nil") && !isCrash got && !(got.startsWith "dead") then
+        if got.startsWith "hang" then [⟨"no-spin", "hang", s!"eof: the receive loop did not terminate: {got}"⟩]
+        else if !(got.startsWith "nil") && !isCrash got && !(got.startsWith "dead") then
           [⟨"no-abort", "eof-error", s!"EOF on a well-formed stream reported as {got}"⟩] else []
       (dS, f1 ++ f2 ++ f3)
     match d.dead with
     | some r => { st := { dS with specDead := true }, expected := some s!"dead {r}", spec := crash ++ fails }
-    | none => { st := { dS with dead := some "nil", specDead := true }, expected := some "nil", spec := crash ++ fails, cov := ["eof"] }
+    | none =>
+      let exp := if d.kind == .sock then s!"nil f={framesText d.sockAcc}" else "nil"
+      { st := { dS with dead := some "nil", specDead := true }, expected := some exp, spec := crash ++ fails, cov := ["eof"] }
   | _ => { st := d, expected := some "bad-op" }
 
 def main : IO Unit := Ndn.Driver.run ({} : DSt) stepC11
